@@ -34,6 +34,7 @@ pub fn dump(seed: u64, out: &str) {
             let mut hol = vec![];
             let mut nonbus = vec![];
             let mut weekend_bus = vec![];
+            let mut weekend_hol = 0usize;
             for d in a..=b {
                 let t = dn(d);
                 let wd = t.weekday().num_days_from_monday();
@@ -44,12 +45,17 @@ pub fn dump(seed: u64, out: &str) {
                     if !cal.is_bus_day(&t) {
                         nonbus.push(d);
                     }
-                } else if cal.is_bus_day(&t) {
-                    weekend_bus.push(d);
+                } else {
+                    if cal.is_bus_day(&t) {
+                        weekend_bus.push(d);
+                    }
+                    if cal.is_holiday(&t) {
+                        weekend_hol += 1;
+                    }
                 }
             }
             o.emit(&json!({"op":"year","key":format!("year/{}/{}", name, y),"name":name,"y":y,
-                           "hol":hol,"nonbus":nonbus,"weekend_bus_count":weekend_bus.len(),"weekend_days": (b - a + 1) as usize - count_weekdays(a, b)}));
+                           "hol":hol,"nonbus":nonbus,"weekend_bus_count":weekend_bus.len(),"weekend_hol_count":weekend_hol,"weekend_days": (b - a + 1) as usize - count_weekdays(a, b)}));
         }
         // the same name through NamedCal in random letter case must be the same calendar (window projections)
         for k in 0..3 {
@@ -58,9 +64,13 @@ pub fn dump(seed: u64, out: &str) {
             match res {
                 Outcome::Ok(Ok(nc)) => {
                     let (lo, hi) = WINDOWS[k];
+                    // the holiday question itself, every day of 1970-2200, through the named calendar (and the generic container)
+                    let (r0, r1) = (nd(&ndt(1970, 1, 1)), nd(&ndt(2200, 12, 31)));
+                    let t = CalType::NamedCal(nc.clone());
+                    let hol_diff = (r0..=r1).filter(|d| { let x = dn(*d); let w = cal.is_holiday(&x); nc.is_holiday(&x) != w || t.is_holiday(&x) != w }).count();
                     o.emit(&json!({"op":"resolve","key":format!("resolve/{}/case{}", name, k),"str":s,"name":name,"o":"ok","via":"NamedCal",
                         "win":k+1,"bus":bitmap(lo, hi, |d| nc.is_bus_day(d)),"ref":bitmap(lo, hi, |d| cal.is_bus_day(d)),
-                        "stl_all": (lo..=hi).all(|d| nc.is_settlement(&dn(d)))}));
+                        "stl_all": (lo..=hi).all(|d| nc.is_settlement(&dn(d))), "hol_diff_n": hol_diff}));
                 }
                 Outcome::Ok(Err(_)) => o.emit(&json!({"op":"resolve","key":format!("resolve/{}/case{}", name, k),"str":s,"name":name,"o":"err","via":"NamedCal"})),
                 Outcome::Panic(_) => o.emit(&json!({"op":"resolve","key":format!("resolve/{}/case{}", name, k),"str":s,"name":name,"o":"panic","via":"NamedCal"})),
